@@ -1313,6 +1313,13 @@ func init() {
 		return Value{T: app("str.lower", args[0].T), Sort: "Str", GoT: retT}
 	}
 	nativeMods["strings.ToLower"] = pureMods
+	// strings.EqualFold(a, b) is modelled as ToLower(a) == ToLower(b) (trusted: simple case folding and lower-casing agree
+	// on the names in question)
+	nativeStubs["strings.EqualFold"] = func(v *Verifier, st *State, in ssa.Instruction, c *ssa.CallCommon, args []Value, retT types.Type) Value {
+		v.env.ctx.declFun("str.lower", []string{"Str"}, "Str")
+		return Value{T: eq(app("str.lower", args[0].T), app("str.lower", args[1].T)), Sort: "Bool", GoT: retT}
+	}
+	nativeMods["strings.EqualFold"] = pureMods
 	// io.ReadFull on a reader with a ghost count of remaining bytes: a full read, a clean end
 	// (0 bytes, io.EOF), a short read (io.ErrUnexpectedEOF) or some other I/O error.
 	nativeStubs["io.ReadFull"] = func(v *Verifier, st *State, in ssa.Instruction, c *ssa.CallCommon, args []Value, retT types.Type) Value {
